@@ -6,6 +6,7 @@ import (
 	"crypto/x509"
 	"encoding/binary"
 	"errors"
+	"math"
 	"net/http"
 	"strings"
 	"time"
@@ -343,6 +344,20 @@ func (a *Authority) RenewSSH(ctx context.Context, oldCert *ssh.Certificate) (*ss
 	return cert, err
 }
 
+// sshCertificateDuration returns the length of the validity period of an SSH
+// certificate. Certificates that are valid forever, or whose period does not
+// fit in a time.Duration, do not have one that a new certificate can reuse.
+func sshCertificateDuration(cert *ssh.Certificate) (time.Duration, error) {
+	if cert.ValidBefore < cert.ValidAfter {
+		return 0, errors.New("certificate validBefore is before validAfter")
+	}
+	secs := cert.ValidBefore - cert.ValidAfter
+	if secs > uint64(math.MaxInt64/int64(time.Second)) {
+		return 0, errors.New("certificate validity period is too long")
+	}
+	return time.Duration(cast.Int64(secs)) * time.Second, nil
+}
+
 func (a *Authority) renewSSH(ctx context.Context, oldCert *ssh.Certificate) (*ssh.Certificate, provisioner.Interface, error) {
 	if oldCert.ValidAfter == 0 || oldCert.ValidBefore == 0 {
 		return nil, nil, errs.BadRequest("cannot renew a certificate without validity period")
@@ -359,7 +374,10 @@ func (a *Authority) renewSSH(ctx context.Context, oldCert *ssh.Certificate) (*ss
 	}
 
 	backdate := a.config.AuthorityConfig.Backdate.Duration
-	duration := time.Duration(cast.Int64(oldCert.ValidBefore-oldCert.ValidAfter)) * time.Second
+	duration, durErr := sshCertificateDuration(oldCert)
+	if durErr != nil {
+		return nil, prov, errs.BadRequestErr(durErr, "cannot renew the certificate")
+	}
 	now := time.Now()
 	va := now.Add(-1 * backdate)
 	vb := now.Add(duration - backdate)
@@ -439,7 +457,10 @@ func (a *Authority) rekeySSH(ctx context.Context, oldCert *ssh.Certificate, pub 
 	}
 
 	backdate := a.config.AuthorityConfig.Backdate.Duration
-	duration := time.Duration(cast.Int64(oldCert.ValidBefore-oldCert.ValidAfter)) * time.Second
+	duration, durErr := sshCertificateDuration(oldCert)
+	if durErr != nil {
+		return nil, prov, errs.BadRequestErr(durErr, "cannot rekey the certificate")
+	}
 	now := time.Now()
 	va := now.Add(-1 * backdate)
 	vb := now.Add(duration - backdate)
